@@ -170,12 +170,16 @@ class Gfa(Lines,GraphOperations,RGFA):
     if self.version == "gfa2":
       return str(self)
     else:
-      lines = []
-      for line in self.lines:
-        converted = line.to_gfa2_s()
-        if converted:
-          lines.append(converted)
-      return "\n".join(lines)
+      unnamed = self._gfa1_edges_without_id()
+      try:
+        lines = []
+        for line in self.lines:
+          converted = line.to_gfa2_s()
+          if converted:
+            lines.append(converted)
+        return "\n".join(lines)
+      finally:
+        self._take_back_assigned_ids(*unnamed)
 
   def to_gfa2(self):
     """Create a GFA2 Gfa instance for the GFA data.
@@ -187,9 +191,35 @@ class Gfa(Lines,GraphOperations,RGFA):
       return self
     else:
       gfa2 = gfapy.Gfa(version="gfa2", vlevel=self.vlevel)
-      for line in self.lines:
-        gfa2.add_line(line.to_gfa2(raise_on_failure=False))
+      unnamed = self._gfa1_edges_without_id()
+      try:
+        for line in self.lines:
+          gfa2.add_line(line.to_gfa2(raise_on_failure=False))
+      finally:
+        self._take_back_assigned_ids(*unnamed)
       return gfa2
+
+  def _gfa1_edges_without_id(self):
+    """
+    The links and containments which have no ID tag (the conversion to GFA2
+    gives them one, so that the paths can mention them), and the state of
+    the counter from which such identifiers are taken.
+    """
+    return ([l for l in self.dovetails + self.containments \
+               if l.get("ID") is None], self._max_int_name,
+            {rt: dict(self._records[rt]) for rt in ["L", "C"]})
+
+  def _take_back_assigned_ids(self, edges, max_int_name, records):
+    """
+    The conversion is a view of the Gfa: the identifiers which it gave to
+    the edges are removed again (and the lines keep their place).
+    """
+    for l in edges:
+      if l.is_connected() and l.get("ID") is not None:
+        l.delete("ID")
+    for rt in records:
+      self._records[rt] = records[rt]
+    self._max_int_name = max_int_name
 
   # TODO: implement clone (see how clone for lines was implemented)
 
